@@ -77,6 +77,157 @@ def observe(ccube, dims, mode):
     return a, None
 
 
+# --------------------------------------------------------------------------- kept cubes (multi-step histories on ONE cube object)
+MODES = ["interactions", "walk1", "walk2"]
+
+
+def observe_cube(cube, mode):
+    """observe() on an EXISTING cube object"""
+    conv = lambda c, r: (tuple(int(x) for x in c), [int(x) for x in r])
+    if mode == "interactions":
+        return [conv(c, r) for c, r in cube.interactions()], None
+    a, b = [], []
+    if mode == "walk1":
+        cube.walk(lambda c, r: a.append(conv(c, r)))
+        return a, None
+    cube.walk([lambda c, r: a.append(conv(c, r)), lambda c, r: b.append(conv(c, r))])
+    if a != b:
+        return a, "two callbacks passed to walk() saw different sequences: %r vs %r" % (a[:6], b[:6])
+    return a, None
+
+
+def gen_kept(rng):
+    """A script for ONE long-lived cube: initial one-axis dims, then rounds of legitimate IN-PLACE changes of the dims
+    (iindex.update moving rows between existing categories / back to the common / to a new category, idx[(k,)] = array
+    swapping the row-id arrays of two categories, iindex.append of rows in existing or new categories on every dim, or no
+    change), each followed by observing the SAME cube object again.  Some changes keep the number of entries of the
+    dimension, some change it.  Everything is concrete (JSON-able), so a replay re-executes the same history."""
+    nd = rng.choice([1, 2, 2, 3])
+    N = rng.randint(3, 8)
+    e = rng.randint(2, 4)
+    cols = [[rng.randrange(e) for _ in range(N)] for _ in range(nd)]
+    specs = []
+    for col in cols:
+        common = cubelib.pick_common(rng, col, range(e), rng.choice(["frequent", "frequent", "rare", "absent"]))
+        specs.append(cubelib.make_spec(rng, col, common))
+    dense = [list(c) for c in cols]
+    commons = [sp["common"] for sp in specs]            # the commons at build time (append may shift them later: only a guide)
+    rounds = []
+    for _ in range(rng.randint(2, 4)):
+        kind = rng.choice(["update-move", "update-move", "update-to-common", "update-new", "swap", "swap", "append-existing",
+                           "append-new", "none"])
+        d = rng.randrange(nd)
+        col, cm = dense[d], commons[d]
+        unc = sorted(set(col) - {cm})
+        op = {"op": "none"}
+        if kind == "update-move" and len(unc) >= 2:
+            big = [v for v in unc if col.count(v) >= 2] or unc
+            a = rng.choice(big)
+            b = rng.choice([v for v in unc if v != a])
+            rows = [r for r in range(len(col)) if col[r] == a]
+            rows = sorted(rng.sample(rows, rng.randint(1, max(1, len(rows) - 1))))          # usually both categories survive
+            op = {"op": "update", "dim": d, "entries": [[b, rows]], "kind": kind}
+        elif kind == "update-to-common" and unc:
+            a = rng.choice(unc)
+            rows = [r for r in range(len(col)) if col[r] == a]
+            rows = sorted(rng.sample(rows, rng.randint(1, len(rows))))
+            op = {"op": "update", "dim": d, "entries": [[cm, rows]], "kind": kind}
+        elif kind == "update-new":
+            rows = sorted(rng.sample(range(len(col)), rng.randint(1, 2)))
+            op = {"op": "update", "dim": d, "entries": [[e + rng.randint(0, 1), rows]], "kind": kind}
+        elif kind == "swap" and len(unc) >= 2:
+            a, b = rng.sample(unc, 2)
+            op = {"op": "swap", "dim": d, "a": a, "b": b, "kind": kind}
+        elif kind.startswith("append"):
+            m = rng.randint(1, 2)
+            others = []
+            for i in range(nd):
+                pool = sorted(set(dense[i])) if kind == "append-existing" else list(range(e + 1))
+                others.append({"arr": [rng.choice(pool) for _ in range(m)], "common": commons[i]})
+            op = {"op": "append", "others": others, "kind": kind}
+        if op["op"] == "none" and kind != "none":           # the chosen kind was not applicable to this column
+            rows = sorted(rng.sample(range(len(col)), rng.randint(1, 2)))
+            op = {"op": "update", "dim": d, "entries": [[rng.choice(sorted(set(col)) + [e]), rows]], "kind": "update-any"}
+        # keep the dense guide up to date
+        if op["op"] == "update":
+            for v, rows in op["entries"]:
+                for r in rows:
+                    col[r] = v
+        elif op["op"] == "swap":
+            dense[op["dim"]] = [op["b"] if v == op["a"] else (op["a"] if v == op["b"] else v) for v in col]
+        elif op["op"] == "append":
+            for i, o in enumerate(op["others"]):
+                dense[i].extend(o["arr"])
+        op["expect"] = [list(c) for c in dense]
+        op["mode"] = rng.choice(MODES)
+        op["between"] = rng.choice(["none", "none", "count", "second-cube-walk"])
+        rounds.append(op)
+    return {"dims": specs, "first_mode": rng.choice(MODES), "pre": rng.choice(["none", "none", "count", "sum"]), "rounds": rounds}
+
+
+def apply_op(iindex, dims, op):
+    if op["op"] == "update":
+        dims[op["dim"]].update({(int(v),): numpy.asarray(rows, dtype=numpy.uint32) for v, rows in op["entries"]})
+    elif op["op"] == "swap":
+        d = dims[op["dim"]]
+        if (op["a"],) not in d or (op["b"],) not in d:       # one of them has become the common (append shifts it): nothing to swap
+            return False
+        ra, rb = d[(op["a"],)].copy(), d[(op["b"],)].copy()
+        d[(op["a"],)] = rb
+        d[(op["b"],)] = ra
+    elif op["op"] == "append":
+        for d, o in zip(dims, op["others"]):
+            d.append(iindex.from_array(numpy.asarray(o["arr"], dtype=numpy.int64), common=o["common"]))
+    return True
+
+
+def judge_state(dims, obs):
+    """The comprehension of the property on the dims AS THEY ARE NOW (dense view through to_array, current common)."""
+    arrs = [[int(v) for v in d.to_array(dtype=numpy.int64).tolist()] for d in dims]
+    keys = [sorted(set(a) - {int(d.common)}) for a, d in zip(arrs, dims)]
+    exp = cubelib.oracle_walk(arrs, keys)
+    got = collections.Counter((c, tuple(r)) for c, r in obs)
+    if got == exp:
+        return None
+    return {"missing": [list(map(list, k)) for k in list((exp - got).keys())[:5]],
+            "unexpected_or_duplicated": [list(map(list, k)) for k in list((got - exp).keys())[:5]]}
+
+
+def run_kept(ccube, iindex, script):
+    """Execute a kept-cube script.  -> list of per-observation dicts (literal of the CURRENT dims, observed pairs, oracle verdict)."""
+    dims = cubelib.build_dims(script["dims"])
+    cube = ccube(dims)                 # built ONCE, kept for the whole history
+    cube2 = ccube(dims)                # a second cube object sharing the same dimension objects
+    if script["pre"] == "count":
+        cube.count()
+    elif script["pre"] == "sum":
+        cube.sum(numpy.arange(dims[0].shape[0], dtype=float))
+    results = []
+
+    def look(which, mode, rnd, skip_judge=False):
+        obs, err = observe_cube(cube if which == "kept" else cube2, mode)
+        N = int(dims[0].shape[0])
+        lit = "(%s, %s, [%s])" % (core.zlit(N), cubelib.dims_lit(dims), "; ".join(cubelib.em_lit(c, r) for c, r in obs))
+        bad = None if skip_judge else judge_state(dims, obs)
+        if err and not bad:
+            bad = {"callbacks": err}
+        results.append({"lit": lit, "obs": obs, "bad": bad, "round": rnd, "mode": mode, "cube": which, "skipped": skip_judge})
+    look("kept", script["first_mode"], 0)
+    for k, op in enumerate(script["rounds"], 1):
+        done = apply_op(iindex, dims, op)
+        # the operation itself is C06's business: if it did not produce the intended column, do not judge the walk on it
+        off = done and [[int(v) for v in d.to_array(dtype=numpy.int64).tolist()] for d in dims] != op["expect"]
+        if op["between"] == "count":
+            try:
+                cube.count()           # only there to stir the cube's state; its extents were fixed at construction, so a
+            except IndexError:         # category added since then is legitimately out of range for the aggregate
+                pass
+        look("kept", op["mode"], k, skip_judge=off)
+        if op["between"] == "second-cube-walk" or k == len(script["rounds"]):
+            look("second", MODES[k % 3], k, skip_judge=off)
+    return results
+
+
 def judge(specs, obs):
     """Property oracle: None if the delivered multiset equals the comprehension, else a description."""
     arrs = [s["arr"] for s in specs]
@@ -122,7 +273,11 @@ def run(ctx):
                 "(60-90 % of the rows) and rare categories of 1-3 rows whose last row usually lies in the next dimension's frequent "
                 "category (short running row-id sets against long index entries); relations: the very same iindex object at two or three "
                 "positions of dims (A A, A B A, A A A), equal-content twins as distinct objects (other construction path / dict order), "
-                "zero-entry dimensions next to ordinary ones; every cube object is asked twice (interactions() twice); exhaustive: every dictionary structure over 3 rows x 3 uncommon "
+                "zero-entry dimensions next to ordinary ones; every cube object is asked twice (interactions() twice); kept cubes: ONE ccube "
+                "object (plus a second cube sharing the dims) observed, its dims changed IN PLACE by iindex.update (rows moved between "
+                "existing categories / to the common / to a new category), idx[(k,)] = array (two row-id arrays swapped), iindex.append "
+                "(existing or new categories), or left alone, and the SAME cube observed again against the dims' current state, 2-4 "
+                "rounds, optionally count()/sum() first or count() in between; exhaustive: every dictionary structure over 3 rows x 3 uncommon "
                 "categories for 1 and 2 dimensions (quick) and 3 dimensions (thorough); a case is distinct per "
                 "(dims literal, observation mode) and non-trivial when at least one pair is delivered")
     ctx.trusted = list(core.STD_TRUSTED) + [
@@ -171,6 +326,31 @@ def run(ctx):
         if i < 3:
             ctx.samples.append({"dims": [{"arr": s["arr"], "common": s["common"]} for s in specs], "mode": modes[i % 3],
                                 "delivered": [[list(c), r] for c, r in obs][:8]})
+    # kept cubes: one cube object walked, its dims changed in place, walked again (several rounds)
+    from catii import iindex
+    n_kept = 600 if thorough else 80
+    kept_dist = collections.Counter()
+    for k in range(n_kept):
+        script = gen_kept(ctx.rng)
+        for r in run_kept(ccube, iindex, script):
+            cases.append(r["lit"])
+            metas.append((script["dims"], "kept-cube round %d %s via %s" % (r["round"], r["cube"], r["mode"])))
+            if r["obs"]:
+                ctx.nontrivial.add((r["lit"], "kept", r["round"], r["cube"]))
+            if r["bad"]:
+                found.append({"kept": script, "dims": script["dims"], "mode": r["mode"], "round": r["round"], "cube": r["cube"],
+                              "observed": [[list(c), rr] for c, rr in r["obs"]], "difference": r["bad"]})
+            kept_dist["observations"] += 1
+            if r["skipped"]:
+                kept_dist["observations not judged (in-place operation did not give the intended column: C06's business)"] += 1
+        kept_dist["objects"] += 1
+        kept_dist["pre=" + script["pre"]] += 1
+        for op in script["rounds"]:
+            kept_dist["change=" + op.get("kind", "none")] += 1
+            kept_dist["between=" + op["between"]] += 1
+        if k < 1:
+            ctx.samples.append({"kept_cube_script": script})
+    ctx.coverage["kept_cubes"] = dict(sorted(kept_dist.items()))
     n_exh = 0
     for nd in ((1, 2, 3) if thorough else (1, 2)):
         for specs in gen_exhaustive(nd):
@@ -217,7 +397,15 @@ def replay(ctx, path):
     from catii import ccube
     bad = []
     items = r.get("failing_inputs") or r.get("disagreeing_cases") or []
+    from catii import iindex
     for c in items:
+        if c.get("kept"):
+            rs = [x for x in run_kept(ccube, iindex, c["kept"]) if x["bad"]]
+            print("kept cube over dims=%s, %d rounds -> %s" % ([(s["arr"], s["common"]) for s in c["dims"]], len(c["kept"]["rounds"]),
+                                                               "VIOLATES " + json.dumps([(x["round"], x["cube"], x["bad"]) for x in rs]) if rs else "ok"))
+            if rs:
+                bad.append({"kept": c["kept"], "dims": c["dims"], "difference": rs[0]["bad"], "round": rs[0]["round"]})
+            continue
         lit, obs, b = run_one(ctx, ccube, c["dims"], c.get("mode", "interactions"))
         print("dims=%s mode=%s delivered=%s -> %s" % ([(s["arr"], s["common"]) for s in c["dims"]], c.get("mode"), obs, "VIOLATES " + json.dumps(b) if b else "ok"))
         if b:
